@@ -6,10 +6,17 @@ Import ListNotations.
 (* one case = one operation history applied by the driver to
      kind 0: a fresh BufferReadWriter(cap), a fresh memory.File(cap) and an empty os.File
      kind 1: NewBufferFileReader(init) and a read-only os.File holding init
-   with the outputs each of them produced *)
+   with the outputs each of them produced.  To keep the generated files small the driver writes
+   `None` for an in-memory observation list that is identical to the os.File's list. *)
 Record case := mkcase {
   c_kind : N; c_cap : N; c_init : list N; c_ops : list op;
-  c_buf : list out; c_mem : list out; c_rdr : list out; c_os : list out }.
+  c_buf_ : option (list out); c_mem_ : option (list out); c_rdr_ : option (list out); c_os : list out }.
+
+Definition same_or (o : option (list out)) (d : list out) : list out :=
+  match o with Some l => l | None => d end.
+Definition c_buf (c : case) := same_or (c_buf_ c) (c_os c).
+Definition c_mem (c : case) := same_or (c_mem_ c) (c_os c).
+Definition c_rdr (c : case) := same_or (c_rdr_ c) (c_os c).
 
 Fixpoint idx_filter (f : case -> bool) (i : N) (cs : list case) : list N :=
   match cs with
